@@ -17,10 +17,12 @@ Inductive perr :=
 | E_multiple_rules | E_output_twice | E_dyndep_not_input
 | E_bad_escape | E_unexpected_eof | E_newline_version
 | E_loading                      (* "loading '<f>': ..." (missing file) *)
+| E_include_depth                (* "include nesting too deep (include cycle?)" : include_depth_ >= 200 *)
 | E_fatal_cycle                  (* Fatal("cycle in rule variables: ...") : process exit *)
 | E_fatal_version                (* Fatal("ninja version ... incompatible ...") : process exit *)
 (* artefacts of the totalisation; never produced for real inputs (see README) *)
-| E_include_fuel                 (* include/subninja nesting deeper than the fuel given *)
+| E_include_fuel                 (* recursion fuel of [load] exhausted: impossible with fuel >= 201,
+                                    because the code's own depth limit (200) stops first *)
 | E_overrun                      (* a scanner looked past the NUL sentinel *)
 | E_loop_fuel                    (* a parser loop ran out of its (length-of-input) fuel *)
 | E_lookup_fuel.                 (* rule-variable expansion deeper than #rule-bindings + 3 *)
